@@ -396,7 +396,15 @@ func runGenesis(r *hx.R, n int, w *hx.W, _ []string) error {
 				if acc1 == nil {
 					continue
 				}
-				if !bytes.Equal(k.GetCode(ctx, gethcommon.BytesToHash(acc1.CodeHash)), k2.GetCode(ctx2, gethcommon.BytesToHash(acc2.CodeHash))) {
+				// Keeper.GetCode panics for a hash without stored bytecode (an account without code): ask only for contracts
+				var code1, code2 []byte
+				if acc1.IsContract() {
+					code1 = k.GetCode(ctx, gethcommon.BytesToHash(acc1.CodeHash))
+				}
+				if acc2.IsContract() {
+					code2 = k2.GetCode(ctx2, gethcommon.BytesToHash(acc2.CodeHash))
+				}
+				if !bytes.Equal(code1, code2) {
 					qDiff = append(qDiff, "code")
 				}
 				for s := int64(0); s <= 7; s++ {
